@@ -71,6 +71,12 @@ CLAIMED = {
             "array does not depend on the completion order of the per-file tasks within a level); whip's CLI is run in-process under "
             "every completion order (<= 4 files) and compared cell for cell with the oracle and the model for both dtypes and limits.",
             "numpy dtype casts are compared on the real output only."),
+    "C09": ("Lean 4 theorem on pestle's covering masks (3-D) + exact rational correspondence check",
+            "Proof: Pestle.mask_correct (for every even occupancy resolution to which all box faces are aligned the mask is defined and marks "
+            "exactly the cells no finer box covers, three dimensions) with aligned_lo_iff/aligned_hi_iff/mask_extent/factor_eq/maskEntry_eq; "
+            "the integral is compared with the exact rational sum over uncovered cells (oracle) and with the Lean model's integral and "
+            "specification on mixed-size, partially refined, anisotropic meshes for every limit and volfrac setting.",
+            "Floating-point summation compared at rtol 1e-9; the lifting of mask_correct to the sum over boxes and levels is checked by the driver's spec/model agreement, not yet a theorem."),
 }
 
 NOT_YET = {}
